@@ -45,6 +45,37 @@ with_map = Fn(FM, "match_with_ruledef_map", slot="asm", ret="res", key="matcher:
            body_start=" let ghost verif_wm0 = matches@;"),
     },
 )
+FW = "src/syntax/walker.rs"
+FT = "src/syntax/token.rs"
+WI = "<'src> Walker<'src>"
+w_char = Fn(FW, "maybe_expect_char", impl=WI, impl_header=WI, slot="syntax", mode="stub", ret="res", key="Walker::maybe_expect_char",
+    requires=[C("not_the_end_of_text_character", "!same_ignoring_ascii_case('\\0', wanted_char)", ["C03"])],
+    ensures=[C("takes_the_character_or_nothing", "(match char_step(*old(self), wanted_char) { Some(w2) => res && *final(self) == w2, None => !res && *final(self) == *old(self) })")])
+w_over = Fn(FW, "is_over", impl=WI, impl_header=WI, slot="syntax", mode="stub", ret="res", key="Walker::is_over", ensures=[C("over", "res == over(*self)")])
+w_next_token = Fn(FW, "next_token", impl=WI, impl_header=WI, slot="syntax", mode="stub", ret="res", key="Walker::next_token", ensures=[C("blank_next", "(res.kind is Whitespace) == next_is_blank(*self)")])
+w_next_char = Fn(FW, "next_char", impl=WI, impl_header=WI, slot="syntax", mode="stub", ret="res", key="Walker::next_char")
+with_expr = Fn(FM, "match_with_expr", slot="asm", mode="stub", ret="res", key="matcher::match_with_expr",
+    ensures=[C("expression_parameter_matches", "res@ == expr_cands(defs, *rule, walker, needs_consume_all_tokens, at_pattern_part as int, enable_lookahead, match_so_far)")])
+with_nested = Fn(FM, "match_with_nested_ruledef", slot="asm", mode="stub", ret="res", key="matcher::match_with_nested_ruledef",
+    ensures=[C("sub_rule_parameter_matches", "res@ == nested_cands(defs, nested_ruledef_ref.0 as int, *rule, walker, needs_consume_all_tokens, at_pattern_part as int, enable_lookahead, match_so_far)")])
+RM = "rule_match(defs, *rule, %s, needs_consume_all_tokens, %s, %s)"
+with_rule = Fn(FM, "match_with_rule", slot="asm", ret="res", key="matcher::match_with_rule", props=["C07", "C03"],
+    requires=[C("parameter_slots_name_parameters", "rule_wf(*rule) && at_pattern_part <= rule.pattern@.len()", ["C03"])],
+    ensures=[C("the_rule_laid_over_the_text_part_by_part", "res@ == " + RM % ("*old(walker)", "at_pattern_part as int", "*old(match_so_far)"), ["C07"])],
+    for_to_while=[1],
+    rewrites=[Rewrite(r"result\.extend\(", "verif_extend(&mut result, ", regex=True, count=2, rule="R16", why="`Vec::extend(Vec)` -> prelude wrapper (assumed: appended in order)"),
+              Rewrite("let mut result = vec![];", "let mut result: WorkingMatches<'src> = Vec::new();", count=2, rule="R10", why="`vec![]` with an inferred element type -> `Vec::new()` with the type written out"),
+              Rewrite("return vec![];", "return Vec::new();", count=None, rule="R10", why="`vec![]` -> `Vec::new()`"),
+              Rewrite("        vec![]\n", "        Vec::new()\n", count=None, rule="R10", why="`vec![]` -> `Vec::new()`"),
+              Rewrite("vec![(match_so_far.clone(), walker.clone())]", "verif_one(match_so_far.clone(), walker.clone())", rule="R16", why="`vec![x]` -> prelude wrapper (a one-element vector)"),
+              ],
+    loops={1: Loop(invariant=[
+        C("cursor", "verif_hi_1 == rule.pattern@.len() && at_pattern_part <= verif_next_1 <= verif_hi_1 && rule_wf(*rule) && *match_so_far == *old(match_so_far)"),
+        C("the_parts_so_far_matched", RM % ("*walker", "verif_next_1 as int", "*match_so_far") + " == " + RM % ("*old(walker)", "at_pattern_part as int", "*old(match_so_far)")),
+    ], decreases="verif_hi_1 - verif_next_1")},
+)
+with_rule.unroll = [2, 3]
+
 with_ruledef = Fn(FM, "match_with_ruledef", slot="asm", mode="stub", ret="res", key="matcher::match_with_ruledef",
     ensures=[C("walker_kept", "final(walker).key() == old(walker).key()"),
              C("candidates", "needs_consume_all_tokens ==> first_components(res@) == ruledef_candidates(defs, ruledef_ref.0 as int, old(walker).key())"), C("wf", WF_ALL)])
@@ -163,7 +194,7 @@ UNIT = Unit(
         Type(FR, "struct", "Ruledef", slot="asm"), Type("src/asm/defs/mod.rs", "struct", "DefList", slot="asm"),
         Type(FA, "struct", "AssemblyOptions", slot="asm"), Type(FA, "struct", "DriverSymbolDef", slot="asm"),
     ] + [f for f in deflist_fns("verify", "asm") if f.name == "get"] + [
-        Type(FMAP, "const", "MAX_PREFIX_SIZE", slot="asm"), Type(FMAP, "struct", "RuledefMapEntry", slot="asm", derive="Clone, Copy"), parse_prefix, query_prefixed, get_rule, begin_match, with_map, with_ruledef, match_is_same, arg_is_same, exact_count, match_instr,
+        Type(FMAP, "const", "MAX_PREFIX_SIZE", slot="asm"), Type(FMAP, "struct", "RuledefMapEntry", slot="asm", derive="Clone, Copy"), parse_prefix, query_prefixed, get_rule, begin_match, with_map, with_ruledef, Type(FT, "struct", "Token", slot="syntax", derive="drop"), Type(FT, "enum", "TokenKind", slot="syntax", derive="Clone, Copy"), w_char, w_over, w_next_token, w_next_char, with_expr, with_nested, with_rule, match_is_same, arg_is_same, exact_count, match_instr,
     ],
     serves=["C07", "C01", "C03"],
     description="asm::matcher::match_instr: duplicate removal (is_same) and the literal-part precedence among the candidates of an instruction line",
